@@ -116,6 +116,65 @@ def h_sim(cx, stations, station_of, H, battery, L, period, bounds_only=False, es
     cx.check("rates_beyond_end_are_zero", all(not (bool(x != 0)) for x in rates[:, n:].ravel()) if rates.shape[1] > n else True)
 
 
+def h_reload(cx, H, battery, period, finish_first):
+    """the ledger also holds on a simulator that was written with the public to_json() and read back with from_json() (finished,
+    or saved before the end and finished after loading): judged through the LABELLED views only - charging_rates_as_df()
+    (columns = station ids), network.voltages (by station id), ev_history (by session id)"""
+    env.install(cx)
+    env.install_json(cx)
+    import warnings
+
+    A = acn()
+    # station ids are NOT in sorted order and the voltages differ
+    stations = [("W-2", "EVSE", 240, 0), ("E-1", "EVSE", 208, 0), ("N-3", "EVSE", 120, 0)]
+    net = make_network(cx, stations, None)
+    station_of = (0, 1)
+    times = sym_times(cx, 2, H, station_of)
+    evs = []
+    for i, (a, d) in enumerate(times):
+        b, cap, init, maxp = make_battery(cx, "s%d" % i, battery)
+        evs.append(A.EV(a, d, 50000, stations[station_of[i]][0], "sess%d" % i, b))
+    table = {}
+    sc = Scripted(cx, stations, max_recompute=1, length=1, table=table)
+    sim = make_sim(cx, net, sc.algo, evs, period=period)
+    if finish_first:
+        sim.run()
+    else:
+        # stop after the first period that has events, as an interrupted run would
+        crash = Scripted(cx, stations, max_recompute=1, length=1, table=table, crash_at=cx.int("stop_at", 1, H))
+        sim = make_sim(cx, net, crash.algo, evs, period=period)
+        try:
+            sim.run()
+        except simlib.Boom:
+            cx.tag("saved_mid_run")
+    with warnings.catch_warnings():
+        warnings.simplefilter("ignore")
+        doc = sim.to_json()
+        sim2 = A.Simulator.from_json(doc)
+    if not sim2.event_queue.empty() or sim2._resolve:
+        sim2.update_scheduler(Scripted(cx, stations, max_recompute=1, length=1, table=table).algo)
+        sim2.run()
+    cx.tag("reloaded")
+    n = sim2.iteration
+    df = sim2.charging_rates_as_df()
+    volt = sim2.network.voltages
+    cx.check("reload:station_ids_kept", list(sim2.network.station_ids) == [s[0] for s in stations], note=str(sim2.network.station_ids))
+    cx.check("reload:voltages_by_station", all(bool(volt[s[0]] == s[2]) for s in stations), note=str(volt))
+    for i in range(2):
+        ev = sim2.ev_history["sess%d" % i]
+        sid = stations[station_of[i]][0]
+        col = list(df[sid])
+        e = 0
+        for t in range(n):
+            e = e + col[t] * volt[sid] / 1000 * (period / 60)
+        cx.check("reload:energy=sum(rate*V*T)_of_its_station[%d]" % i, eq(ev.energy_delivered, e))
+        bd = ev._battery._to_dict()[0]
+        cx.check("reload:energy=battery_gain[%d]" % i, eq(bd["_current_charge"] - bd["_init_charge"], ev.energy_delivered))
+    vac = list(df["N-3"])
+    cx.check("reload:vacant_station_has_zero_rates", all(not bool(v != 0) for v in vac[:n]))
+    cx.observe("energies", [sim2.ev_history["sess%d" % i].energy_delivered for i in range(2)])
+
+
 def sim_jobs(tier, only_bounds=False):
     S2 = [("A", "EVSE", 208, 0), ("B", "DEADBAND", 240, 0)]
     S3 = [("A", "EVSE", 208, 0), ("B", "CC", 120, 0), ("C", "EVSE", 240, 0)]
@@ -144,4 +203,8 @@ def jobs(tier):
                           bounds=dict(step="one set_pilot from an arbitrary state satisfying the ledger invariant; all parameters symbolic"),
                           approx=(kind == "continuous"), cost=5))
     js.extend(sim_jobs(tier))
+    for H, bat, per, fin in ([(3, "ideal", 5, True), (3, "ideal", 60, False)] if tier == "quick" else [(4, "ideal", 5, True), (4, "stepwise", 60, False), (3, "stepwise", 1, True), (4, "ideal", 15, False)]):
+        js.append(Job("reload[H=%d,%s,T=%d,%s]" % (H, bat, per, "finished" if fin else "saved_mid_run"), h_reload, dict(H=H, battery=bat, period=per, finish_first=fin), functions=FUNCS + [
+            "acnportal.acnsim.base.BaseSimObj.to_json/from_json", "acnportal.acnsim.simulator.Simulator._to_dict/_from_dict/update_scheduler/charging_rates_as_df", "acnportal.acnsim.network.charging_network.ChargingNetwork._to_dict/_from_dict/voltages"],
+            expect_tags=("reloaded",), max_paths=60000, timeout=3000, bounds=dict(stations=3, sessions=2, horizon=H, period_min=per, battery=bat, station_ids="non-sorted, unequal voltages"), cost=300))
     return js
